@@ -316,7 +316,7 @@ def run(res, prop, tier, replay=None):
         hs = [[tuple(x) for x in h] for h in hs]
     else:
         hs = histories(seed, 3000 if thorough else 60)
-        if prop in ("C13", "C14", "C15"):
+        if prop in ("C01", "C13", "C14", "C15"):
             # the builds-over-a-used-directory part of those properties: histories whose builds succeed
             # (setting changes, edits - also within the same tick - between valid versions)
             hs = [h for h in hs if not any(op[0] in ("edit_g", "edit_g_same") and op[1] not in ("g1", "g2", "g3") or op[0] == "edit_l" and op[1] != "l1" for op in h)]
